@@ -15,7 +15,7 @@ RULE = ("A generated program P (C02 generator; label references of the forms lab
         "0..65535 and on the same side of $100), rename (bijection of all labels and EQU names onto fresh names of "
         "1-10 characters, upper / lower / mixed case, never a register name or mnemonic), layout (blanks / tabs between "
         "fields, trailing blanks, comments added / changed / removed with arbitrary printable text, mnemonic in upper / "
-        "lower / mixed case), suffix (1-10 further statements with new labels appended, and up to four statements that refer to labels already there at every operand width; enumerated: a variable below $100 referred to in ten forms by the program x ten forms by the appended statement). Oracle: P and T(P) are both "
+        "lower / mixed case), suffix (1-10 further statements with new labels appended, and up to four statements that refer to labels already there at every operand width; enumerated: a variable below $100 referred to in ten forms by the program x ten forms by the appended statement; appended statements that INCLUDE a label-free file the program has already included, directly or through a wrapper). Oracle: P and T(P) are both "
         "accepted or both rejected; shift - lock-step decode: same operations, modes and lengths, absolute label "
         "operands differ by exactly D, every other byte equal, listing addresses and label symbols shifted by D, EQU "
         "symbols equal; rename / layout - image, listing addresses and symbol values identical under the name map; "
@@ -111,6 +111,50 @@ def enumerated(tier, seed):
                     perm = [names[i] for i in order] + names[4:]
                     yield dict(prog={"org": 0x1000, "stmts": stmts}, T=dict(kind="rename", names=perm))
     yield from page_zero_pairs()
+    yield from include_suffix_cases()
+
+
+def include_suffix_cases():
+    """(INCLUDE lines carry no label: a label there has no defined meaning, see C19)
+    the appended statements INCLUDE a label-free file the program has already included (directly, twice, or through
+    a wrapper): the statements already there keep their bytes, addresses and symbol values"""
+    files = {"poke.asm": [" STA $0400\n", " LDB #2\n"], "wrap.asm": [" NOP \n", " INCLUDE poke.asm\n"], "other.asm": [" CLRA \n"]}
+    bases = [[" ORG $1000\n", "START LDA #1\n", " INCLUDE poke.asm\n", "AFTER RTS \n"],
+             [" ORG $1000\n", "START LDA #1\n", " INCLUDE poke.asm\n", " INCLUDE poke.asm\n", "AFTER BRA START\n"],
+             [" ORG $1000\n", "START NOP \n", " INCLUDE wrap.asm\n", "AFTER LEAX START,PCR\n"],
+             [" ORG $0020\n", " INCLUDE other.asm\n", "START NOP \n", " INCLUDE wrap.asm\n", "AFTER FDB START\n"]]
+    suffixes = [[" INCLUDE poke.asm\n", "MORE NOP \n"], ["MORE NOP \n", " INCLUDE wrap.asm\n"], [" INCLUDE other.asm\n", " INCLUDE poke.asm\n", "MORE JMP AFTER\n"],
+                [" INCLUDE wrap.asm\n", " INCLUDE wrap.asm\n", "MORE FDB AFTER,START\n"]]
+    for base in bases:
+        for suffix in suffixes:
+            yield dict(inc_suffix=dict(base=base, suffix=suffix, files=files))
+
+
+def execute_inc_suffix(case):
+    c = case["inc_suffix"]
+    labels = ["T:suffix", "suffix_with_include"]
+    with driver.TempDir() as tmp:
+        for name, flines in c["files"].items():
+            with open(os.path.join(tmp, name), "w", newline="") as fh:
+                fh.write("".join(flines))
+        A = driver.assemble(list(c["base"]), cwd=tmp)
+        B = driver.assemble(list(c["base"]) + list(c["suffix"]), cwd=tmp)
+    ctx = " P={!r} suffix={!r}".format([l.strip() for l in c["base"]], [l.strip() for l in c["suffix"]])
+    if A.kind in ("CRASH", "HANG") or B.kind in ("CRASH", "HANG"):
+        return skip("crash/hang: judged by C13", labels=labels)
+    if A.kind != "OK":
+        return viol("valid program with includes rejected ({}).".format(A.message) + ctx, fid="C18:suffix:include-base", labels=labels)
+    if B.kind != "OK":
+        return viol("suffix: P is accepted but P + suffix is rejected ({}).".format(B.message) + ctx, fid="C18:suffix:accept-differs", labels=labels)
+    if B.image[:len(A.image)] != A.image:
+        return viol("suffix: the bytes of the original statements changed." + ctx, fid="C18:suffix:image", labels=labels)
+    if [(r[0], r[1]) for r in A.rows] != [(r[0], r[1]) for r in B.rows[:len(A.rows)]] or A.origin != B.origin:
+        return viol("suffix: listing addresses / bytes of the original statements changed." + ctx, fid="C18:suffix:rows", labels=labels)
+    symB = dict(B.symbols)
+    for name, value in dict(A.symbols).items():
+        if symB.get(name) != value:
+            return viol("suffix: symbol {} = {} became {}.".format(name, value, symB.get(name)) + ctx, fid="C18:suffix:symbols", labels=labels)
+    return ok(labels=labels, nontrivial=True)
 
 
 def page_zero_pairs():
@@ -240,6 +284,8 @@ def transform(case):
 
 
 def render(case):
+    if case.get("inc_suffix"):
+        return case["inc_suffix"]
     t = transform(case)
     if t is None:
         return dict(T=case["T"]["kind"], note="not applicable")
@@ -263,6 +309,8 @@ def _refs(prog):
 
 
 def execute(case):
+    if case.get("inc_suffix"):
+        return execute_inc_suffix(case)
     t = transform(case)
     kind = case["T"]["kind"]
     labels = ["T:" + kind]
